@@ -5,7 +5,7 @@
    validated and written to the next transaction file).  [ok = false] stands for every input that
    cannot be applied (short header, truncated, garbage, unacceptable page size). *)
 From Coq Require Import NArith List Bool.
-Require Import LF.Gen.ConstsGen LF.Model.PageDB LF.Proofs.XorLib LF.Proofs.ChecksumProofs LF.Proofs.ChainProofs LF.Proofs.ApplyProofs LF.Proofs.HistoryProofs LF.Proofs.WalHistoryProofs LF.Proofs.WalCheckpointProofs LF.Proofs.SqlCheckpointProofs LF.Proofs.FollowProofs LF.Proofs.ExportProofs.
+Require Import LF.Gen.ConstsGen LF.Model.PageDB LF.Proofs.XorLib LF.Proofs.ChecksumProofs LF.Proofs.ChainProofs LF.Proofs.ApplyProofs LF.Proofs.HistoryProofs LF.Proofs.WalHistoryProofs LF.Proofs.WalCheckpointProofs LF.Proofs.SqlCheckpointProofs LF.Proofs.FollowProofs LF.Proofs.ExportProofs LF.Proofs.ComposeProofs LF.Proofs.ImportHistoryProofs.
 Import ListNotations.
 Local Open Scope N_scope.
 
@@ -89,3 +89,34 @@ Example C16_export_matches_position_nonvacuous :
     | None => False
     end.
 Proof. exact export_example. Qed.
+
+(* ---- import over the histories of C04_history ----
+   After EVERY history in the step language of Props/C04.v (any mix of journal modes, checkpoints, restarts, received and
+   forwarded files, drops, earlier imports; a log with pending frames or not) a completed import of a whole image
+   [pages] (every page 1..commit present) is ONE transaction on top of the node's position, and an export right after it
+   names that position and reads, page by page (lock page excepted), exactly the imported pages; the position's checksum
+   is the from-scratch checksum of the imported image - nothing of the previous database survives in either. *)
+Theorem C16_history_import_then_export : forall lock gs s v pages commit s',
+  1 <= lock -> wf_gsteps (init lock) gs -> run_gsteps (init lock) (fun _ => 0) gs = Some (s, v) ->
+  wf_import s pages commit -> grun s (GImport pages commit) = Some s' ->
+  txid s' = txid s + 1 /\ pageN s' = commit /\ snd (op_export s') = (txid s', chk s') /\
+  (forall p, 1 <= p <= commit -> p <> lock -> read_page s' p = alookup p pages) /\
+  chk s' = scratch (fun p => if p =? lock then 0 else match alookup p pages with Some q => pg_h q | None => 0 end) commit.
+Proof. exact g_history_import_export. Qed.
+Print Assumptions C16_history_import_then_export.
+
+(* Non-vacuity: the fourteen steps of Props/C04.v's example history up to its drop (both journal modes, restarts, SQLite's
+   complete checkpoint, received and forwarded files), then a two-page image imported into the dropped database *)
+Example C16_history_import_nonvacuous :
+  wf_gsteps (init 2097153) import_example_history /\
+  match run_gsteps (init 2097153) (fun _ => 0) import_example_history with
+  | Some (s, _) =>
+      wf_import s import_example_image 2 /\
+      match grun s (GImport import_example_image 2) with
+      | Some s' => (txid s, txid s', pageN s', map (read_page s') [1; 2], chk s' =? fl (N.lxor (fl 41) (fl 42)))
+                   = (9, 10, 2, [Some (mkPg (fl 41) 2 false); Some (mkPg (fl 42) 0 false)], true)
+      | None => False
+      end
+  | None => False
+  end.
+Proof. exact import_history_example. Qed.
